@@ -21,6 +21,10 @@
 //     connection to every udp proxy (StartWorkConn frame on a connection made after the cut) plus 1 s.
 //     From then on every light-load exchange must complete - no datagram may be spent on "warming up"
 //     the replaced connection. Three cycles in a row on the same tunnel.
+//     3c. backend restart: the backend socket is closed, every user (and one user that never sent before)
+//     sends one datagram into the void (loss tolerated for exactly those; frpc's connected local sockets
+//     get ICMP port unreachable), the backend comes back on the same port, and 500 ms later every
+//     exchange of the SAME user sockets - and of a fresh user as positive control - must complete.
 //  4. tunnel closed under traffic (session cut at the relay in the middle of a burst against a child
 //     frps; sudp visitor frpc stopped in the middle of a burst): the process must survive / stop
 //     without a crash, and the tunnel must carry light-load traffic again afterwards.
@@ -238,13 +242,28 @@ transport.poolCount = %d
 type tunSpec struct {
 	Kind                   string
 	Enc, Comp, VEnc, VComp bool
+	Limit                  string // "" | server | client
+}
+
+// randSpec draws the per-leg settings of a tunnel: encryption, compression (proxy and, for sudp, visitor leg) and
+// the bandwidth limit dimension {none, generous server-mode, generous client-mode}.
+func randSpec(rng *rand.Rand, kind string) tunSpec {
+	return tunSpec{Kind: kind, Enc: rng.Intn(2) == 0, Comp: rng.Intn(2) == 0, VEnc: rng.Intn(2) == 0, VComp: rng.Intn(2) == 0,
+		Limit: []string{"", "", "server", "client"}[rng.Intn(4)]}
+}
+
+func (sp tunSpec) limitLines() string {
+	if sp.Limit == "" {
+		return ""
+	}
+	return fmt.Sprintf("transport.bandwidthLimit = %q\ntransport.bandwidthLimitMode = %q\n", generousLimit, sp.Limit)
 }
 
 // build starts backends, frpc processes and (for sudp) visitors for the given tunnels.
 func (e *env) build(specs []tunSpec, relay bool) error {
 	var udpSpecs, sudpSpecs []*tunnel
 	for i, sp := range specs {
-		t := &tunnel{Idx: i, Kind: sp.Kind, Name: fmt.Sprintf("%s%s%d", e.pfx, sp.Kind, i), Enc: sp.Enc, Comp: sp.Comp, VEnc: sp.VEnc, VComp: sp.VComp}
+		t := &tunnel{Idx: i, Kind: sp.Kind, Name: fmt.Sprintf("%s%s%d", e.pfx, sp.Kind, i), Enc: sp.Enc, Comp: sp.Comp, VEnc: sp.VEnc, VComp: sp.VComp, Limit: sp.Limit}
 		be, err := startBackend(e.cs, i)
 		if err != nil {
 			return err
@@ -275,6 +294,7 @@ func (e *env) build(specs []tunSpec, relay bool) error {
 			fmt.Fprintf(&sb, "[[proxies]]\nname = %q\ntype = \"sudp\"\nsecretKey = \"sk-%s\"\nlocalIP = \"127.0.0.1\"\nlocalPort = %d\ntransport.useEncryption = %v\ntransport.useCompression = %v\n",
 				t.Name, t.Name, t.be.Port, t.Enc, t.Comp)
 		}
+		sb.WriteString(specs[t.Idx].limitLines())
 	}
 	e.c.Data["owner_config"] = sb.String()
 	owner, err := h.StartClientText(prop, sb.String())
@@ -635,9 +655,9 @@ func (e *env) recoverWindow(max time.Duration) bool {
 
 func oneCase(c *h.Case) {
 	rng := c.Rng
-	nIdle, nClose, nRepl := 2, 4, 6
+	nIdle, nClose, nRepl, nBack := 2, 4, 6, 6
 	if run.Thorough() {
-		nIdle, nClose, nRepl = 8, 24, 60
+		nIdle, nClose, nRepl, nBack = 8, 24, 60, 60
 	}
 	if c.Idx < nIdle {
 		idleCase(c)
@@ -649,6 +669,10 @@ func oneCase(c *h.Case) {
 	}
 	if c.Idx < nIdle+nClose+nRepl {
 		replaceCase(c)
+		return
+	}
+	if c.Idx < nIdle+nClose+nRepl+nBack {
+		backendCase(c)
 		return
 	}
 	r := rng.Intn(100)
@@ -697,7 +721,7 @@ func trafficCase(c *h.Case, kind string, withCut bool) {
 		if i == 1 && rng.Intn(3) == 0 { // a second tunnel of the other kind on the same frpc
 			k = map[string]string{"udp": "sudp", "sudp": "udp"}[kind]
 		}
-		specs = append(specs, tunSpec{Kind: k, Enc: rng.Intn(2) == 0, Comp: rng.Intn(2) == 0, VEnc: rng.Intn(2) == 0, VComp: rng.Intn(2) == 0})
+		specs = append(specs, randSpec(rng, k))
 	}
 	var perTun []int
 	totalUsers := 0
@@ -809,7 +833,7 @@ func trafficCase(c *h.Case, kind string, withCut bool) {
 	finish("light-b")
 	ts := make([]string, 0, len(specs))
 	for _, s := range specs {
-		ts = append(ts, fmt.Sprintf("%s/%v%v%v%v", s.Kind, s.Enc, s.Comp, s.VEnc && s.Kind == "sudp", s.VComp && s.Kind == "sudp"))
+		ts = append(ts, fmt.Sprintf("%s/%v%v%v%v/%s", s.Kind, s.Enc, s.Comp, s.VEnc && s.Kind == "sudp", s.VComp && s.Kind == "sudp", s.Limit))
 	}
 	run.Distinct(fmt.Sprintf("traffic|%v|%s|%v|%d|%v|%v|%v|%s", withCut, cutRole, cutMid, w.Size, w.Mux, ts, perTun, sig.sig()))
 	run.Count("cases_"+kind, 1)
@@ -840,7 +864,7 @@ func idleCase(c *h.Case) {
 	w := pickWorld(rng, false)
 	e := newEnv(c, w)
 	defer e.close()
-	spec := tunSpec{Kind: kind, Enc: rng.Intn(2) == 0, Comp: rng.Intn(2) == 0, VEnc: rng.Intn(2) == 0, VComp: rng.Intn(2) == 0}
+	spec := randSpec(rng, kind)
 	c.Data["kind"], c.Data["variant"], c.Data["tunnels"] = "idle-"+kind, variant, []tunSpec{spec}
 	c.Data["world"] = map[string]any{"udpPacketSize": w.Size, "tcpMux": w.Mux}
 	if err := e.build([]tunSpec{spec}, false); err != nil {
@@ -948,9 +972,9 @@ func closeCase(c *h.Case, k int) {
 		w.child = ch
 		c.Data["world"] = map[string]any{"udpPacketSize": w.Size, "tcpMux": w.Mux, "frps": "child process"}
 		e.stressBig = true
-		specs := []tunSpec{{Kind: "udp", Enc: rng.Intn(2) == 0, Comp: rng.Intn(2) == 0}}
+		specs := []tunSpec{randSpec(rng, "udp")}
 		if rng.Intn(2) == 0 {
-			specs = append(specs, tunSpec{Kind: "udp", Enc: rng.Intn(2) == 0, Comp: rng.Intn(2) == 0})
+			specs = append(specs, randSpec(rng, "udp"))
 		}
 		c.Data["tunnels"] = specs
 		if err := e.build(specs, true); err != nil {
@@ -1002,7 +1026,7 @@ func closeCase(c *h.Case, k int) {
 		e := newEnv(c, w)
 		defer e.close()
 		e.stressBig, e.childVisitor = true, true
-		specs := []tunSpec{{Kind: "sudp", Enc: rng.Intn(2) == 0, Comp: rng.Intn(2) == 0, VEnc: rng.Intn(2) == 0, VComp: rng.Intn(2) == 0}}
+		specs := []tunSpec{randSpec(rng, "sudp")}
 		c.Data["tunnels"] = specs
 		if err := e.build(specs, false); err != nil {
 			run.Inconclusive("setup: " + trimErr(err))
@@ -1053,9 +1077,9 @@ func replaceCase(c *h.Case) {
 	e := newEnv(c, w)
 	defer e.close()
 	e.plainWire = true
-	specs := []tunSpec{{Kind: "udp", Enc: rng.Intn(2) == 0, Comp: rng.Intn(2) == 0}}
+	specs := []tunSpec{randSpec(rng, "udp")}
 	if rng.Intn(3) == 0 {
-		specs = append(specs, tunSpec{Kind: "udp", Enc: rng.Intn(2) == 0, Comp: rng.Intn(2) == 0})
+		specs = append(specs, randSpec(rng, "udp"))
 	}
 	per := make([]int, len(specs))
 	for i := range per {
@@ -1126,5 +1150,90 @@ func replaceCase(c *h.Case) {
 	run.Distinct(fmt.Sprintf("replace|%d|%v|%v|%s", w.Size, specs, per, sig.sig()))
 	if c.Idx%3 == 0 {
 		run.Sample(map[string]any{"case": c.Idx, "kind": "replace", "world": c.Data["world"], "tunnels": specs, "users_per_tunnel": per, "cycles": cycles})
+	}
+}
+
+// backendCase: the local service behind the tunnel goes away and comes back; users keep their source addresses.
+func backendCase(c *h.Case) {
+	rng := c.Rng
+	kind := []string{"udp", "sudp"}[c.Idx%2]
+	w := pickWorld(rng, false)
+	e := newEnv(c, w)
+	defer e.close()
+	specs := []tunSpec{randSpec(rng, kind)}
+	nu := 1 + rng.Intn(4)
+	cycles := 2
+	c.Data["kind"], c.Data["cycles"], c.Data["tunnels"], c.Data["users"] = "backend-restart-"+kind, cycles, specs, nu
+	c.Data["world"] = map[string]any{"udpPacketSize": w.Size, "tcpMux": w.Mux}
+	if err := e.build(specs, false); err != nil {
+		run.Inconclusive("setup: " + trimErr(err))
+		return
+	}
+	if err := e.addUsers([]int{nu}); err != nil || !e.first() {
+		return
+	}
+	sig := &lenSig{}
+	if !e.lightRound(e.genLight(1, sig, false), exWait) {
+		return
+	}
+	t := e.cs.tunnels[0]
+	for cyc := 1; cyc <= cycles; cyc++ {
+		e.cs.quiesce(200*time.Millisecond, 5*time.Second)
+		t.be.Close()
+		c.Ev("backend-down", "cycle", cyc, "port", t.be.Port)
+		// a user whose very first datagram meets the dead backend
+		if err := e.addUsers([]int{1}); err != nil {
+			run.Inconclusive("setup: user sockets")
+			return
+		}
+		var wg sync.WaitGroup
+		for _, u := range e.users {
+			wg.Add(1)
+			go func(u *user) {
+				defer wg.Done()
+				// into the void: these datagrams (one per user) may be lost, nothing else
+				if u.exchange(exSpec{L: 60 + u.Idx, RepL: []int{20}}, 400*time.Millisecond, false) {
+					run.Count("datagrams_delivered_while_backend_down", 1)
+				}
+			}(u)
+		}
+		wg.Wait()
+		if err := t.be.Reopen(); err != nil {
+			run.Inconclusive("backend port could not be re-opened")
+			return
+		}
+		c.Ev("backend-up", "cycle", cyc)
+		time.Sleep(500 * time.Millisecond)
+		// positive control: a user address the client has never seen
+		if err := e.addUsers([]int{1}); err != nil {
+			run.Inconclusive("setup: user sockets")
+			return
+		}
+		fresh := e.users[len(e.users)-1]
+		plan := map[*user][]exSpec{}
+		for _, u := range e.users {
+			who := "which had sent one datagram while the backend was down"
+			if u == fresh {
+				who = "which is new (positive control)"
+			}
+			for i := 0; i < 3; i++ {
+				sp := pickSpec(rng, w.Size, true)
+				sp.ArriveKey, sp.LossKey = "datagram-lost-after-backend-came-back", "reply-lost-after-backend-came-back"
+				sp.Note = fmt.Sprintf(" — backend restart cycle %d: the backend socket on port %d was closed, every user sent one datagram, the backend was re-opened on the same port, and this datagram was sent at least 500 ms later from user address %s %s", cyc, t.be.Port, u.conn.LocalAddr(), who)
+				plan[u] = append(plan[u], sp)
+				sig.add(sp)
+			}
+		}
+		if !e.lightRound(plan, exWait) {
+			e.tally(fmt.Sprintf("restart-%d", cyc))
+			return
+		}
+		run.Count("backend_restarts", 1)
+	}
+	e.tally("backend-restart")
+	run.Count("cases_backend_restart", 1)
+	run.Distinct(fmt.Sprintf("backend|%s|%d|%v|%v|%d|%s", kind, w.Size, w.Mux, specs, nu, sig.sig()))
+	if c.Idx%3 == 0 {
+		run.Sample(map[string]any{"case": c.Idx, "kind": "backend-restart-" + kind, "world": c.Data["world"], "tunnels": specs, "users": nu, "cycles": cycles})
 	}
 }
